@@ -41,7 +41,10 @@ TotalAtL(r, a, j, c, K) ==
 PosAccAtL(r, a, j, c, K) == FloorDivModM(TotalAtL(r, a, j, c, K))     \* [q |-> position (BigInt), r |-> accumulator (native)]
 
 \* integer ticks next to the real turning point of the rate parabola, 1/2 - a/j
-VertexCands(a, j) == IF j = 0 THEN {} ELSE LET f == FloorDivN(0 - a, j) IN {f - 1, f, f + 1, f + 2}
+\* (clamped so that f-1..f+2 is representable: a turning point beyond tick 2^31-3 cannot lie inside an in-range move,
+\*  the rate at the clamped candidates is then already out of range by ~2^60)
+VertexF(a, j) == LET f == FloorDivN(0 - a, j) IN IF f > LMm1 - 3 THEN LMm1 - 3 ELSE IF f < -2 THEN -2 ELSE f
+VertexCands(a, j) == IF j = 0 THEN {} ELSE LET f == VertexF(a, j) IN {f - 1, f, f + 1, f + 2}
 InMove(k, K) == k >= 1 /\ Cmp(FromInt(k), K) <= 0
 \* the firmware-valid domain: every rate_k (k = 1..K) and every acceleration within +-(2^31-1)
 DomainOK(r, a, j, K) ==
@@ -55,7 +58,7 @@ PeakL(r, a, j, K) ==
   LET ends == BMax(Abs(RateAtL(r, a, j, One)), Abs(RateAtL(r, a, j, K)))
       G(k) == IF InMove(k, K) THEN Abs(RateAtL(r, a, j, FromInt(k))) ELSE BZero IN
   IF j = 0 THEN ends
-  ELSE LET f == FloorDivN(0 - a, j) IN BMax(ends, BMax(BMax(G(f - 1), G(f)), BMax(G(f + 1), G(f + 2))))
+  ELSE LET f == VertexF(a, j) IN BMax(ends, BMax(BMax(G(f - 1), G(f)), BMax(G(f + 1), G(f + 2))))
 
 (* ---- LM: motor steps taken in either direction after K ticks (jerk = 0) ---- *)
 \* native r0 and first rate (the caller checks they are representable)
